@@ -199,7 +199,7 @@ def run(tier, out: Outcome):
                {"op": "doctor", "p": "p3"}, {"op": "open_ro", "p": "p3"}]
         ops += [{"op": t, "p": "p1"} for t in tail]
         ops += [{"op": "open", "p": "p2"}, {"op": "put", "p": "p2"}, {"op": "close", "p": "p2"}, {"op": "close", "p": "p1"},
-                {"op": "open", "p": "p3"}, {"op": "close", "p": "p3"}]
+                {"op": "close", "p": "p3"}, {"op": "open", "p": "p3"}, {"op": "close", "p": "p3"}]
         scs.append({"id": len(scs) + 1, "ops": ops})
     if not quick:
         scs.append({"id": len(scs) + 1, "ops": [{"op": "open", "p": "p1"}, {"op": "put", "p": "p1"}, {"op": "commit", "p": "p1"},
